@@ -29,10 +29,21 @@ RULE = ("flat: cycles of 1..6 (sometimes 7..60) elements, durations 1..9 (someti
         "element objects); in-place duration / state edits of a held element and in-place append to the held list, before and after "
         "a first query; replacing / re-assigning the light's cycle; every other setter, translate_rotate, convert_to_2d, ==, hash, "
         "str, repr, reads of cycle_init_timesteps, drawing, deepcopy / pickle of cycle, light and network (the history goes on on the "
-        "copy), and calls that raise (ill-typed time step, out-of-range angle, a query on an emptied cycle). distinct = canonical "
+        "copy), and calls that raise (ill-typed time step, out-of-range angle, a query on an emptied cycle). typed flat cases (400): durations / offset / time steps as numpy integers of every "
+        "width from int8 to int64, signed and unsigned, the same narrow type throughout / mixed within one cycle / all unsigned, with "
+        "durations at the maximum of their type so that offset + total and t - offset leave the narrow ranges. distinct = canonical "
         "JSON of the case; non-trivial = every case (flat: >= 1 step outside the first period or at a phase boundary; hist: >= 1 "
         "query after >= 1 other operation)")
 ASSUMPTIONS = ["numpy cumsum/insert/argmax on int64 denote their list counterparts (sampled by the correspondence)",
+               "numpy integers of every width (int8, uint8, int16, uint16, int32, uint32, int64; mixed within one cycle, for durations, "
+               "offset and time step) are generated inside what the unmodified library answers exactly (`inside_typed`, measured on "
+               "200 000 random cycles with warnings as errors): np.cumsum over the list of durations promotes to int64 whatever "
+               "their widths, so the sums may exceed the narrow types; the limit is numpy's scalar subtraction `time_step - "
+               "time_offset`, carried out in the promoted type of those two operands (Python ints take the other operand's type): the "
+               "time step, the offset and their difference have to fit it, otherwise numpy raises OverflowError or wraps around (no "
+               "verdict). Cycles whose durations are ALL unsigned get a uint64 table (float64 once a signed offset is added): only "
+               "t >= offset and values below 2^53 are generated for them. numpy.uint64 is not generated (it promotes to float64 with "
+               "every signed operand)",
                "the integers generated are those the unmodified library computes exactly in int64 (boundary measured on the real "
                "code with warnings as errors, `inside`): offset + total duration <= 2^63 - 1 (the last entry of the table) and "
                "-2^63 <= t - offset <= 2^63 - 1; when the time step or the offset is numpy-typed the time step is an int64 itself, with Python "
@@ -52,6 +63,7 @@ ASSUMPTIONS = ["numpy cumsum/insert/argmax on int64 denote their list counterpar
                "a cycle read from a file is judged against the elements and the offset its public getters report (whether the file "
                "round trip preserves them is C02/C03's subject)"]
 EXTRA_MODULES = ['CRProps.T17']      # translator tie: Gen.Src (regenerated from /repo every run) = hand model
+NP_INTS = ["np.int8", "np.uint8", "np.int16", "np.uint16", "np.int32", "np.uint32", "np.int64"]
 REQUIRED_BUCKETS = ["single-element", "t<offset", "boundary", "many-periods", "light/cycle-replaced", "light/inactive", "light/active",
                     "cycle/setter-after-query", "cycle/same-list-reassigned",
                     "light/color-lacks-a-cycle-state", "light/color-disjoint-by-setter",
@@ -60,6 +72,10 @@ REQUIRED_BUCKETS = ["single-element", "t<offset", "boundary", "many-periods", "l
                     "flat/many-elements", "flat/huge-duration", "flat/huge-t",
                     "flat/|t-off|>2^53", "flat/t-off-at-int64-edge", "flat/t-beyond-int64", "flat/offset>2^53", "flat/total>2^53",
                     "flat/table-end-at-int64-max", "q/|t-off|>2^53",
+                    "flat/dts-same-narrow", "flat/dts-mixed-widths", "flat/dts-all-unsigned"] + \
+                   [f"flat/offset+total-exceeds-{x}" for x in ("np.int8", "np.uint8", "np.int16", "np.uint16", "np.int32", "np.uint32")] + \
+                   [f"flat/t-exceeds-{x}" for x in ("np.int8", "np.uint8", "np.int16", "np.uint16", "np.int32")] + \
+                   [f"flat/{k}-{x}" for k in ("otyp", "ttyp") for x in NP_INTS] + [
                     "hist/alias", "hist/off-omitted", "hist/cyc-active-False", "hist/cyc-active-omitted", "hist/no-light",
                     "hist/light-pos-None", "hist/light-pos-3d", "hist/light-id-0", "hist/light-shape", "hist/light-color-empty",
                     "hist/light-active-False", "hist/light-direction-given",
@@ -83,7 +99,7 @@ K_APP = "C17/cycle.get_state_at_time_step/stale-after/cycle_elements.append(in-p
 # get = read-only property, op = public method (dunder methods defined by the class included).
 DIMENSIONS = {
     ("TrafficLightCycleElement", "ctor", "state"): "all 5 TrafficLightState values (flat + hist)",
-    ("TrafficLightCycleElement", "ctor", "duration"): "1..9, 1, up to 10^6 / 10^12; int, numpy.int64, numpy.int32 (ityp)",
+    ("TrafficLightCycleElement", "ctor", "duration"): "1..9, 1, up to 10^6 / 10^12 / the int64 edge; int and every numpy integer width int8..int64 / uint8..uint32, mixed within one cycle (dts)",
     ("TrafficLightCycleElement", "set", "state"): "hist op `state` on an element the cycle holds, before / after the first query",
     ("TrafficLightCycleElement", "set", "duration"): "hist op `dur` on an element the cycle holds (also one held at two positions), "
                                                      "before / after the first query",
@@ -92,7 +108,7 @@ DIMENSIONS = {
     ("TrafficLightCycleElement", "op", "__str__"): "hist keep op `str`",
     ("TrafficLightCycleElement", "op", "__repr__"): "hist keep op `repr`",
     ("TrafficLightCycle", "ctor", "cycle_elements"): "1..60 elements, same object at two positions (cls); None / [] outside the quantifier",
-    ("TrafficLightCycle", "ctor", "time_offset"): "0..20, large, omitted (default), int / numpy.int64 / numpy.int32",
+    ("TrafficLightCycle", "ctor", "time_offset"): "0..20, large, omitted (default), int / every numpy integer width (otyp)",
     ("TrafficLightCycle", "ctor", "active"): "True / False / omitted (hist cyc_active)",
     ("TrafficLightCycle", "set", "cycle_elements"): "hist op `es`: new list, same list object edited in place and re-assigned, "
                                                     "permutation / repetition of the held element objects; before and after queries",
@@ -158,9 +174,88 @@ def _states():
     return list(TrafficLightState)
 
 
-def _num(typ, v):
+def _np(typ):
     import numpy as np
-    return {"int": int, "np.int64": np.int64, "np.int32": np.int32}[typ or "int"](v)
+    return getattr(np, typ[3:])
+
+
+def _num(typ, v):
+    return int(v) if typ in (None, "int") else _np(typ)(v)
+
+
+def fits(typ, v):
+    if typ in (None, "int"):
+        return -2 ** 63 <= v <= 2 ** 63 - 1
+    import numpy as np
+    i = np.iinfo(_np(typ))
+    return int(i.min) <= v <= int(i.max)
+
+
+def _scalar_result(a, b):
+    """the type in which numpy subtracts two SCALARS: Python ints are weak (they take the other operand's type)"""
+    import numpy as np
+    ts = [_np(x) for x in (a, b) if x not in (None, "int")]
+    return "int" if not ts else "np." + np.result_type(*ts).name
+
+
+def inside_typed(es, dts, off, otyp, t, ttyp):
+    """Durations / offset / time step given as numpy integers of ANY width (mixed within one cycle), as measured on the
+    unmodified library (200 000 random cycles, warnings as errors, 0 wrong): np.cumsum over the LIST of durations promotes to
+    int64 whatever their widths (uint64 when all are unsigned), so the table never wraps; what limits the exact range is the
+    scalar subtraction `time_step - self.time_offset`, carried out in the promoted type of those two (Python ints weak)."""
+    total = sum(d for _, d in es)
+    if not (off + total <= 2 ** 63 - 1 and all(fits(x, d) for (_, d), x in zip(es, dts)) and fits(otyp, off) and fits(ttyp, t)):
+        return False
+    r = _scalar_result(ttyp, otyp)
+    if not (fits(r, t) and fits(r, off) and fits(r, t - off)):
+        return False
+    if all(x not in (None, "int") and x.startswith("np.uint") for x in dts):
+        # all durations unsigned: a uint64 table (float64 once a signed offset is added): non-negative and below 2^53 only
+        return t - off >= 0 and off + total < 2 ** 53 and abs(t) < 2 ** 53
+    return True
+
+
+def gen_typed(ctx, force=None):
+    """flat case whose durations / offset / time steps are numpy integers of every width, mixed within one cycle; the sums
+    deliberately leave the range of the narrow types (the table must not inherit them)"""
+    import numpy as np
+    r = ctx.rng
+    n = r.choice([1, 2, 2, 3, 3, 4, 6])
+    kind = force or r.choice(["same", "same", "mixed", "mixed", "unsigned"])
+    if kind == "same":
+        dts = [r.choice(NP_INTS[:6])] * n
+    elif kind == "unsigned":
+        dts = [r.choice(["np.uint8", "np.uint16", "np.uint32"]) for _ in range(n)]
+    else:
+        dts = [r.choice(["int"] + NP_INTS) for _ in range(n)]
+        if all(x.startswith("np.uint") for x in dts):
+            dts[0] = "np.int8"
+    es = []
+    for x in dts:
+        hi = 10 ** 6 if x in ("int", "np.int64") else int(np.iinfo(_np(x)).max)
+        es.append([r.randrange(5), r.choice([r.randint(1, 9), hi, hi - r.randint(0, 3), r.randint(1, hi), max(1, hi // 2 + r.randint(0, 2))])])
+    total = sum(d for _, d in es)
+    otyp = r.choice(["int", "int"] + NP_INTS + [dts[0]])
+    ohi = 10 ** 6 if otyp in ("int", "np.int64") else int(np.iinfo(_np(otyp)).max)
+    off = r.choice([0, 1, 5, r.randint(0, min(ohi, 40)), ohi, r.randint(0, ohi)])
+    ttyp = r.choice(["int", "int"] + NP_INTS + [dts[0], otyp])
+    res = _scalar_result(ttyp, otyp)
+    lo, hi = (-10 ** 9, 10 ** 9) if res in ("int", "np.int64") else (int(np.iinfo(_np(res)).min), int(np.iinfo(_np(res)).max))
+    if ttyp not in ("int", "np.int64"):
+        lo, hi = max(lo, int(np.iinfo(_np(ttyp)).min)), min(hi, int(np.iinfo(_np(ttyp)).max))
+    cand = {lo, lo + 1, hi, hi - 1, off, off - 1, off + total, off + total - 1, off + lo, off + hi}
+    acc = 0
+    for _, d in es:
+        for per in (-3, -1, 0, 1, 2, 7):
+            cand.update([off + per * total + acc, off + per * total + acc + d - 1])
+        acc += d
+    for _ in range(12):
+        cand.add(r.randint(lo, hi))
+        cand.add(r.randint(max(lo, off - 3 * total), min(hi, max(off + 5 * total, lo))) if max(lo, off - 3 * total) <= min(hi, max(off + 5 * total, lo)) else off)
+    ts = sorted(t for t in cand if inside_typed(es, dts, off, otyp, t, ttyp))
+    if len(ts) > 40:
+        ts = sorted(r.sample(ts, 40))
+    return {"es": es, "dts": dts, "off": off, "otyp": otyp, "ttyp": ttyp, "ts": ts}
 
 
 I64 = 2 ** 63
@@ -283,7 +378,22 @@ def run_case(ctx, case):
     st = _states()
     es, off, ts = case["es"], case["off"], case["ts"]
     ityp, ttyp, noff = case.get("ityp"), case.get("ttyp"), bool(case.get("noff")) and off == 0
+    dts, otyp = case.get("dts"), case.get("otyp", case.get("ityp"))
     total = sum(d for _, d in es)
+    if dts:
+        if not ts:
+            return
+        ok = (lambda t_: inside_typed(es, dts, off, otyp, t_, ttyp))
+        unsigned = all(x.startswith("np.uint") for x in dts)
+        ctx.tag("flat/dts-" + ("all-unsigned" if unsigned else "same-narrow" if len(set(dts)) == 1 else "mixed-widths"))
+        for x in set(dts) | {otyp, ttyp}:
+            if x not in (None, "int") and not fits(x, off + total):
+                ctx.tag(f"flat/offset+total-exceeds-{x}")
+            if x not in (None, "int") and any(not fits(x, t - off) or not fits(x, t) for t in ts):
+                ctx.tag(f"flat/t-exceeds-{x}")
+        ctx.tag(f"flat/otyp-{otyp or 'int'}", f"flat/ttyp-{ttyp or 'int'}")
+    else:
+        ok = (lambda t_: inside(es, off, t_, ttyp, ityp))
     if len(es) == 1:
         ctx.tag("single-element")
     if any(t < off for t in ts):
@@ -315,14 +425,14 @@ def run_case(ctx, case):
         ctx.tag("flat/total>2^53")
     if off + total == I64 - 1:
         ctx.tag("flat/table-end-at-int64-max")
-    if any(not inside(es, off, t, ttyp, ityp) for t in ts):
+    if any(not ok(t) for t in ts):
         ctx.excluded += 1          # a stored case outside the integers the library computes exactly: no verdict (ASSUMPTIONS)
         return
     ctx.case(case)
 
     def mk():
-        els = [TrafficLightCycleElement(st[s], _num(ityp, d)) for s, d in es]
-        return TrafficLightCycle(els) if noff else TrafficLightCycle(els, time_offset=_num(ityp, off))
+        els = [TrafficLightCycleElement(st[s], _num(dts[i] if dts else ityp, d)) for i, (s, d) in enumerate(es)]
+        return TrafficLightCycle(els) if noff else TrafficLightCycle(els, time_offset=_num(otyp, off))
 
     impl, impl_light = [], []
     cyc = mk()
@@ -350,18 +460,30 @@ def run_case(ctx, case):
     ctx.compare(case, impl, model, "TrafficLightCycle.get_state_at_time_step vs CR.TL.stateAt")
     ctx.compare(case, impl_light, model_light, "TrafficLight.get_state_at_time_step vs CR.TL.lightStateAt")
     # oracle (independent of the model)
+    typed = f" (durations given as {dts}, offset as {otyp or 'int'}, time step as {ttyp or 'int'})" if dts else ""
     for t, a, b in zip(ts, impl, impl_light):
         want = oracle_state(es, off, t)
         sub = dict(case, ts=[t])
         if "err" in a:
-            ctx.fail(f"C17/cycle.get_state_at_time_step/raises-{a['err']}", f"raises for cycle {es} offset {off} t={t}", sub)
+            ctx.fail(f"C17/cycle.get_state_at_time_step/raises-{a['err']}", f"raises for cycle {es} offset {off} t={t}{typed}", sub)
         elif a["ok"] != want:
             ctx.fail("C17/cycle.get_state_at_time_step/wrong-state",
-                     f"cycle {es} offset {off} t={t}: got {st[a['ok']].name}, cycle definition gives {st[want].name}", sub)
+                     f"cycle {es} offset {off} t={t}{typed}: got {st[a['ok']].name}, cycle definition gives {st[want].name}", sub)
         if b != a:
             ctx.fail("C17/light.get_state_at_time_step/disagrees-with-cycle",
                      f"TrafficLight reports {b}, its cycle {a} at t={t}", sub)
         # periodicity
+    if dts:
+        # periodicity inside the typed range; the setter orders below are about histories, not about integer widths
+        tt = ts[len(ts) // 2]
+        for k in (1, 2, 5, 1000):
+            if ok(tt + k * total):
+                r1, r2 = call(mk().get_state_at_time_step, _num(ttyp, tt)), call(mk().get_state_at_time_step, _num(ttyp, tt + k * total))
+                if r1[:2] != r2[:2]:
+                    ctx.fail("C17/cycle.get_state_at_time_step/not-periodic", f"state at {tt} and {tt}+{k}*{total} differ",
+                             dict(case, ts=[tt, tt + k * total]))
+                    break
+        return
     # TrafficLight keeps agreeing with its cycle after the cycle is replaced / edited (query -> set -> query)
     es2 = [[(s + 1) % len(st), d + (i % 2)] for i, (s, d) in enumerate(es)][::-1]
     cyc2 = TrafficLightCycle([TrafficLightCycleElement(st[s], d) for s, d in es2], time_offset=off + 1)
@@ -1078,6 +1200,8 @@ def run(ctx):
         run_case(ctx, json.load(open(p)))
     for _ in range(ctx.n(1500)):
         run_case(ctx, gen_case(ctx))
+    for i in range(ctx.n(400)):
+        run_case(ctx, gen_typed(ctx, ["same", "mixed", "unsigned", None][i % 4]))
     for i in range(ctx.n(1200)):
         run_hist(ctx, gen_hist(ctx, FORCE[i // 2 % len(FORCE)] if i % 2 == 0 and i < 6 * len(FORCE) else None))
     if stale_table:
